@@ -3,7 +3,8 @@ from . import c05_c16_flow as flow
 
 MODULE = "StorageModel.Properties.C16"
 THEOREMS = ["system_needs_system_ctx", "system_needs_system_ctx_parent_registration",
-            "system_needs_system_ctx_child_registration", "refused_tx_unchanged", "refused_aborts", "system_needs_system_ctx_tx",
+            "system_needs_system_ctx_child_registration", "system_needs_system_ctx_plain_shape",
+            "plain_shape_no_child_data", "unchanged_update_refused", "unchanged_update_allowed", "refused_tx_unchanged", "refused_aborts", "system_needs_system_ctx_tx",
             "ordinary_step_preserves_system", "ordinary_tx_preserves_system", "ordinary_history_preserves_system",
             "ordinary_history_preserves_system_parent_registration", "ordinary_history_preserves_system_child_registration",
             "step_reg", "cascade_never_deletes_system",
@@ -43,9 +44,9 @@ def nontrivial(case, impl):
     return None
 
 
-_REG = {"H": "on-S", "HC": "on-child-store-only", "HB": "on-both", "HN": "nowhere"}
+_REG = {"H": "on-S", "HC": "on-child-store-only", "HB": "on-both", "HN": "nowhere", "HP": "on-S,plain-shape(no-child-store)"}
 _CTX = {"o": "ordinary", "s": "system", "n": "nested-update-system", "m": "nested-update-own"}
-_WITH_CTX = ("c", "u", "d", "C", "U", "D", "oc", "od", "w")
+_WITH_CTX = ("c", "u", "d", "C", "U", "D", "oc", "od", "w", "b")
 
 
 def histogram(case, impl, h):
@@ -67,6 +68,8 @@ def histogram(case, impl, h):
                 inc("update-carries:IsSystem=" + x[3] + ",Migrate=" + x[6])
             if x[0] in ("c", "C"):
                 inc("create-carries:IsSystem=" + x[3] + ",Migrate=" + x[5])
+            if x[0] == "b":
+                inc("write-back-checker:" + x[3])
             if x[0] == "w":
                 inc("delete-where:" + x[2] + (("=" + x[3]) if x[2] == "s" else ""))
     for tx in impl.split(" "):
@@ -101,6 +104,8 @@ def describe(case, impl, model, spec):
             return f"{'Create' if k == 'c' else 'child-store Create'}[{ctx(x[1])}] id={_unhex(x[2])!r} IsSystem={x[3]} name={_unhex(x[4])!r} {rest(x[5:])}"
         if k in ("u", "U"):
             return f"{'Update' if k == 'u' else 'child-store Update'}[{ctx(x[1])}] id={_unhex(x[2])!r} IsSystem={x[3]} name={_unhex(x[4])!r} checker={x[5]} {rest(x[6:])}"
+        if k == "b":
+            return f"Update[{ctx(x[1])}] id={_unhex(x[2])!r} with the entity just loaded by FindById, unchanged; checker={x[3]}"
         if k in ("d", "D"):
             return f"{'DeleteById' if k == 'd' else 'child-store DeleteById'}[{ctx(x[1])}] id={_unhex(x[2])!r}"
         if k == "oc":
@@ -134,7 +139,8 @@ MATCHERS = {}
 
 RULE = ("each case is a history of Db.Update transactions over real stores on a fresh bolt file: the constrained store S of "
         "ext-entities (system-entity constraint, fk `owner` with CascadeDelete to a second store O, link collection to O), "
-        "a child store C of S; the constraint is registered on S (H), on C only (HC), on both (HB) or nowhere (HN), drawn per case; "
+        "a child store C of S; the constraint is registered on S (H), on C only (HC), on both (HB) or nowhere (HN), or on S in the "
+        "PLAIN shape (HP: no child store exists, S has neither parent nor child store strategies), drawn per case; "
         "every Create/Update carries the WHOLE in-memory entity (IsSystem, Migrate, CreatedAt, "
         "UpdatedAt, Tags, name, owner). (1) exhaustive two-step histories on S: create (ordinary|system ctx) x (IsSystem t|f) "
         "x (Migrate t|f), then delete / re-create / update (IsSystem t|f) x (Migrate t|f) x (checker nil, name, isSystem, "
@@ -145,7 +151,9 @@ RULE = ("each case is a history of Db.Update transactions over real stores on a 
         "with the own context after a system context was derived), DeleteWhere by 7 queries, child-store Create / Update / "
         "DeleteById over a system / ordinary / missing parent with or without child data, link / unlink and deleting the "
         "far end, each followed by direct attempts from an ordinary context and a read-back — all of (2) with the constraint on S, and "
-        "thinned out (entities created through S or through C) with the constraint on C only and on both; (3) random histories (2-7 "
+        "thinned out (entities created through S or through C) with the constraint on C only and on both; (2b) updates that change nothing: the entity is loaded and written back unchanged with 5 checker shapes (nil, empty, "
+        "unchanged fields, fields Update never writes) from 4 context kinds on a system / ordinary entity, same or later "
+        "transaction, in the plain shape, with a child store, with the constraint on the child store; (3) random histories (2-7 "
         "transactions of 1-4 operations over 2-4 ids and 1-3 owners) mixing all operations and context kinds, IsSystem 1/2, "
         "Migrate 2/5, timestamps from {zero, 1000, 2000, 3000}, tags nil or a value, 16 checker shapes. After every "
         "operation the error kind, after a failing operation the uncommitted state, after every transaction FindById "
